@@ -140,6 +140,36 @@ def o_swapped_member(src, plain, obj, lo, hi):
     return None
 
 
+@C.oracle('xor_ctx')
+def o_xor_ctx(src, klen, dlen, keys):
+    """the key comes from the data: ONE construct object parses and builds records with different keys, one after another and
+    as elements of an array; every record is the payload XOR its own key (cycled)"""
+    c = C.get(src)
+    arr = C.get('Array(%d, FixedSized(%d, %s))' % (len(keys), max(klen, 1) + dlen, src))       # ProcessXor reads to the end of its region
+    recs, objs = [], []
+    for i, k in enumerate(keys):
+        kb = bytes([k]) if klen == 0 else bytes((k + j) & 255 for j in range(klen))
+        payload = bytes((17 * i + 3 * j + 1) & 255 for j in range(dlen))
+        enc = bytes(b ^ kb[j % len(kb)] for j, b in enumerate(payload))
+        recs.append(kb + enc)
+        objs.append(dict(k=(k if klen == 0 else kb), d=payload))
+    for rnd in range(2):
+        for r, o in zip(recs, objs):
+            p = res(lambda: c.parse(r))
+            if p[0] != 'ok' or p[1].d != o['d']:
+                return 'parse(%r) gives %r, the payload XOR the key of that record is %r' % (r, p, o['d'])
+            b = res(lambda: c.build(o))
+            if b != ('ok', r):
+                return 'build(%r) gives %r, expected %r' % (o, b, r)
+    p = res(lambda: arr.parse(b''.join(recs)))
+    if p[0] != 'ok' or [x.d for x in p[1]] != [o['d'] for o in objs]:
+        return 'as array elements: %r, expected payloads %r' % (p, [o['d'] for o in objs])
+    b = res(lambda: arr.build(objs))
+    if b != ('ok', b''.join(recs)):
+        return 'array build gives %r' % (b,)
+    return None
+
+
 SWAPPED_MEMBERS = [
     ('Struct("s"/BitsSwapped(PascalString(Byte, "ascii")), "t"/Int16ub)', 'Struct("s"/PascalString(Byte, "ascii"), "t"/Int16ub)', dict(s='hey', t=513), 0, 4),
     ('Sequence(BitsSwapped(VarInt), GreedyBytes)', 'Sequence(VarInt, GreedyBytes)', [300, b'rest'], 0, 2),
@@ -189,6 +219,15 @@ def run(tier, seed):
                 cases.append(dict(src='%s(Bytes(%d))' % (w, n), op='parse', data=v))
     acc.check('swapped', 'ByteSwapped(Struct("a"/Byte, "b"/Int16ub))', inner='Struct("a"/Byte, "b"/Int16ub)', mode='bytes', values=[dict(a=1, b=0x0203)])
     acc.check('swapped', 'BitsSwapped(GreedyBytes)', inner='GreedyBytes', mode='bits', values=[b'', b'\x01', b'\x80\x0f\xf0'])
+    for src, klen, dlen in [('Struct("k"/Byte, "d"/ProcessXor(this.k, Bytes(4)))', 0, 4), ('Struct("k"/Bytes(1), "d"/ProcessXor(this.k, Bytes(3)))', 1, 3),
+                            ('Struct("k"/Bytes(2), "d"/ProcessXor(this.k, Bytes(5)))', 2, 5), ('Struct("k"/Bytes(3), "d"/ProcessXor(this.k, FixedSized(4, GreedyBytes)))', 3, 4)]:
+        acc.check('xor_ctx', src, klen=klen, dlen=dlen, keys=[2, 3, 0, 255, 2, 90])
+    # zero-size swapped / transformed regions read nothing
+    for z in ('ByteSwapped(Bytes(0))', 'BitsSwapped(Bytes(0))', 'ByteSwapped(Struct())', 'BitsSwapped(Array(0, Byte))'):
+        zsrc, zplain = 'Struct("z"/%s, "r"/GreedyBytes)' % z, 'Struct("z"/%s, "r"/GreedyBytes)' % z.split('(', 1)[1][:-1]
+        for d in (b'hello', b''):
+            cases.append(dict(src=zsrc, op='parse', data=d))
+        acc.check('swapped_member', zsrc, plain=zplain, obj=dict(z=(b'' if 'Bytes' in z else ([] if 'Array' in z else {})), r=b'hello'), lo=0, hi=0)
     for src, plain, obj, lo, hi in SWAPPED_MEMBERS:
         acc.check('swapped_member', src, plain=plain, obj=obj, lo=lo, hi=hi)
         cases.append(dict(src=src, op='build', obj=obj))
